@@ -29,5 +29,12 @@ fn main() {
     if tt.contains("pub occupied:") {
         println!("cargo:rustc-cfg=tt_pub_occupied");
     }
+    // Hook H3 (position at which a search observed its stop) was added later than H1/H2: trees without
+    // it (older scratch worktrees) must still build; the checks then go without that position.
+    println!("cargo::rustc-check-cfg=cfg(hook_stopped_at)");
+    let tc = fs::read_to_string(format!("{src}/engine/search/time_control.rs")).unwrap_or_default();
+    if tc.contains("pub fn stopped_at") {
+        println!("cargo:rustc-cfg=hook_stopped_at");
+    }
     println!("cargo::rustc-check-cfg=cfg(jgilchrist_tcheran_verif)");
 }
